@@ -1457,7 +1457,8 @@ emitdata(struct decl *d, struct init *init)
 			(https://todo.sr.ht/~mcf/cproc/38)
 			*/
 			assert(cur->expr->kind == EXPRSTRING);
-			assert(init->expr->kind == EXPRCONST);
+			if (init->expr->kind != EXPRCONST)
+				error(&tok.loc, "initializer is not a constant expression");
 			i = (init->start - cur->start) / cur->expr->type->base->size;
 			if (i >= cur->expr->u.string.size) {
 				/* the element lies beyond the end of the literal, extend it with zeros */
